@@ -3,6 +3,8 @@ import AFModel.IdentComp
 import AFProofs.Lemmas.IdentComp
 import AFModel.IdentJoin
 import AFProofs.Lemmas.IdentJoin
+import AFModel.IdentSearch
+import AFProofs.Lemmas.IdentSearch
 
 /-!
 # C07 — the fit identifier is a stable, sensitive function of what is fitted
@@ -426,5 +428,48 @@ example : joinTokens ["Lst", "values", "1", "0", "k"] = joinTokens ["Lst", "valu
   join_merge_adjacent ["Lst", "values"] "1" "0" ["k"]
 example : tokenPieces ["vlib.P2", "a", "1.5"] = ["vlib", "P2", "a", "1", "5"] := by decide
 example : dotFree "lower_limit".toList = true := by decide
+
+/-! ## which settings identify a search: over the generated table (`AFModel/Generated/C07.lean`)
+
+The table is regenerated from the repository source before every build; the theorems below are about
+*every* row of it, so they are re-proved for whatever the source declares. -/
+
+open AF.Generated.C07
+
+/-- **Every identifying setting of every search class is sensitive**: changing it (to a value with other
+tokens, everything else equal) changes the tokens of the search. -/
+theorem every_identifying_setting_sensitive : ∀ row ∈ searchTable, ∀ f ∈ row.idf, ∀ (σ τ : String → PyVal),
+    tokens (σ f) ≠ tokens (τ f) → (∀ g, g ≠ f → σ g = τ g) → tokens (searchVal row σ) ≠ tokens (searchVal row τ) :=
+  fun row hr f hf σ τ hd hsame =>
+    AF.IdentSearch.search_field_sensitive row (AF.IdentSearch.table_fields_nodup row hr) f hf
+      (AF.IdentSearch.table_fields_visible row hr f hf) σ τ hd hsame
+
+/-- **No other setting is**: changing any setting that is not an identifying one (iterations per update,
+number of cores, name, path prefix, run settings …) leaves the tokens unchanged — for every search class. -/
+theorem no_other_setting_identifying : ∀ row ∈ searchTable, ∀ g ∈ row.others, ∀ (σ τ : String → PyVal),
+    (∀ f, f ≠ g → σ f = τ f) → tokens (searchVal row σ) = tokens (searchVal row τ) :=
+  fun row hr g hg σ τ hsame =>
+    AF.IdentSearch.search_tokens_only_identifying row σ τ
+      (fun f hf => hsame f (fun e => AF.IdentSearch.table_others_disjoint row hr g hg (e ▸ hf)))
+
+/-- two search classes never share their tokens (class names in the table are distinct, the name is the first token) -/
+theorem search_class_sensitive (r1 r2 : SearchRow) (σ τ : String → PyVal) (h : r1.name ≠ r2.name) :
+    tokens (searchVal r1 σ) ≠ tokens (searchVal r2 τ) := by
+  simp only [searchVal, tokens, ne_eq, List.cons.injEq, not_and]
+  intro e; exact absurd e h
+
+theorem search_class_names_distinct : (searchTable.map (·.name)).Nodup := AF.IdentSearch.table_names_nodup
+
+/-- the prior kinds of the composition model carry exactly the identifier fields the source declares -/
+theorem prior_kinds_match_source : ∀ k ∈ allKinds, priorTable.lookup k.className = some (priorFieldNames k) :=
+  AF.IdentSearch.prior_table_matches
+
+/-- … and the source declares no prior class the composition model does not know -/
+theorem prior_kinds_complete : priorTable.map (·.1) = ["GaussianPrior", "LogGaussianPrior", "LogUniformPrior", "UniformPrior"] :=
+  AF.IdentSearch.prior_table_complete
+
+example : (lookupRow "Drawer").map (·.idf) = some ["total_draws"] := by decide
+example : ∃ row ∈ searchTable, "nlive" ∈ row.idf ∧ "iterations_per_update" ∈ row.others := by decide
+example : tokens (.int 50) ≠ tokens (.int 51) := by decide
 
 end AF.C07
